@@ -287,6 +287,9 @@ def run(F, res, tier):
                 running = True
         res.ob("S3", "later-statements-see-binder", "the running scope variable is replaced by the new scope, so later statements see the binder",
                running, where=ts.loc(), how="a local is defined both from the parameter and from the allocations: %s" % running)
+    lambda_param_range(F, res)
+    resolver_provenance(F, res)
+    qualifier_first(F, res)
     # ---- S4
     rn = F.fn("ide::def::resolver::Resolver::resolve_name")
     names = [(b, FL.short(callee(t) or callee_def(t))) for b, t in rn.calls()]
@@ -331,3 +334,123 @@ def run(F, res, tier):
                 vis = True
     res.ob("S4", "imports-public-only", "an unqualified import only brings in public declarations of the other module (filter on Visibility::Public)",
            vis, where=ri.loc(), how="Visibility comparison in resolve_import: %s" % vis)
+
+
+def lambda_param_range(F, res):
+    """S5: the parameter range of a lambda covers exactly the patterns lowered from its parameter list"""
+    lw = F.fn("ide::def::body::BodyLowerCtx::lower_expr")
+    d = FL.Defs(lw)
+    lam = [(b, s_) for b, i, s_ in lw.stmts() if s_.get("rv", {}).get("k") == "agg" and s_["rv"].get("adt") == "ide::def::module::Expr"
+           and s_["rv"]["variant"] == "Lambda"]
+    if not lam:
+        res.anchor_missing("S5", "construction of Expr::Lambda in lower_expr")
+        return
+    for b, s_ in lam:
+        rv = s_["rv"]
+        body_o = d.origin_op(rv["ops"][rv["fields"].index("body")])
+        par_o = d.origin_op(rv["ops"][rv["fields"].index("params")])
+        ends = []
+        if par_o.get("k") == "call" and FL.short(callee(par_o["t"]) or callee_def(par_o["t"])) == "IdxRange::new":
+            rng = d.origin_op(par_o["t"]["args"][0])
+            if rng.get("k") == "agg":
+                for op in rng["rv"]["ops"]:
+                    o = d.origin_op(op)
+                    if o.get("k") == "call" and FL.short(callee(o["t"]) or callee_def(o["t"])) == "BodyLowerCtx::next_pattern_idx":
+                        ends.append(o["bb"])
+        body_bb = body_o.get("bb") if body_o.get("k") == "call" else None
+        ok = len(ends) == 2 and body_bb is not None and all(lw.dominates(e, body_bb) and e != body_bb for e in ends)
+        pats = [bb for bb, t in lw.calls() if FL.short(callee(t) or callee_def(t)) == "BodyLowerCtx::lower_pattern"]
+        between = len(ends) == 2 and any(lw.can_reach(min(ends), [p_]) and lw.can_reach(p_, [max(ends)]) for p_ in pats)
+        res.ob("S5", "lambda/param-range-closed-before-body", "both ends of a lambda's parameter range are taken before its body is lowered (binders inside the body are not parameters)",
+               ok and between, where=lw.loc(s_["ln"]), how="range ends %s, body lowered at bb%s, parameter patterns lowered in between: %s" % (ends, body_bb, between))
+
+
+# which resolver each name lookup must use (reviewed): 'expr' = resolver_for_expr / the SourceAnalyzer's resolver
+# (sees local binders, innermost first), 'toplevel' = module scope only
+RESOLVER_TABLE = {
+    ("ide::def::hir::Import::definition", 0): ("toplevel", "an imported name is looked up in the exporting module's scope"),
+    ("ide::def::scope::dependency_order_query::{closure#0}", 0): ("expr", "a variable in a function body: a parameter or let binder shadows a top-level function of the same name"),
+    ("ide::def::semantics::Semantics::resolve_nameref", 0): ("toplevel", "`module.name`: the name is looked up in the scope of the module named by the qualifier"),
+    ("ide::def::semantics::Semantics::resolve_nameref", 1): ("expr", "an unqualified name in an expression: resolved with the SourceAnalyzer built for that node"),
+    ("ide::ty::infer::InferCtx::infer_expr_inner", 0): ("expr", "Expr::Variable: locals shadow module items"),
+    ("ide::ty::infer::InferCtx::infer_expr_inner", 1): ("toplevel", "`module.name` field access: looked up in the other module's scope"),
+    ("ide::ty::infer::InferCtx::infer_pattern::{closure#0}", 0): ("toplevel", "`module.Variant` pattern: looked up in the other module's scope"),
+    ("ide::ty::infer::InferCtx::resolve_variant", 0): ("toplevel", "constructor names are capitalised and cannot be local binders; the function's module scope is used"),
+}
+
+
+def resolver_kind(F, f, d, op):
+    o = d.origin_op(op)
+    base = o
+    while base.get("k") == "field":
+        base = base["base"]
+    if base.get("k") == "arg" and f.kind == "Closure":
+        idx = FL.closure_env_field(o)
+        if idx is not None:
+            pf, po = FL.upvar_origin(F, f.path, idx)
+            base = po
+            while base.get("k") == "field":
+                base = base["base"]
+    if base.get("k") == "call":
+        c = FL.short(callee(base["t"]) or callee_def(base["t"]))
+        if c == "resolver::resolver_for_expr":
+            return "expr"
+        if c == "resolver::resolver_for_toplevel":
+            return "toplevel"
+        if c in ("Try::branch", "Semantics::analyze"):
+            return "expr"      # analyzer.resolver from Semantics::analyze(node)?
+        return c
+    if base.get("k") == "arg":
+        return "toplevel" if f.path.endswith("InferCtx::resolve_variant") else "arg"
+    return str(base.get("k"))
+
+
+def resolver_provenance(F, res, only=None, rule="S4"):
+    n = 0
+    for p_, f in sorted(F.fns.items()):
+        if not p_.startswith(("ide::", "<ide::")) or not f.blocks:
+            continue
+        sites = [(b, t) for b, t in f.calls() if callee(t) == "ide::def::resolver::Resolver::resolve_name"]
+        if not sites or (only and not p_.startswith(only)):
+            continue
+        d = FL.Defs(f)
+        for i, (b, t) in enumerate(sites):
+            n += 1
+            kind = resolver_kind(F, f, d, t["args"][0])
+            want = RESOLVER_TABLE.get((p_, i))
+            if want is None:
+                res.ob(rule, "resolver/%s/%d" % (p_, i), "this name lookup uses the right kind of resolver", False, where=f.loc(t["ln"]),
+                       how="new resolve_name call site (resolver: %s) that is not in the reviewed table" % kind)
+                continue
+            res.ob(rule, "resolver/%s/%d" % (p_, i), "this name lookup uses a resolver that sees %s (%s)" % (
+                "the local binders in scope" if want[0] == "expr" else "the module scope", want[1]), kind == want[0], where=f.loc(t["ln"]),
+                how="resolver comes from %s" % kind, reviewed=(kind == want[0]))
+    res.floor("resolve_name call sites in crate ide", n, 8 if not only else 1)
+
+
+def qualifier_first(F, res):
+    """S4: a module-qualified type name `module.Type` is resolved through its qualifier first; the unqualified lookup is the fallback"""
+    f = F.fn("ide::def::semantics::classify_type_name")
+    d = FL.Defs(f)
+
+    def closure_calls(op):
+        o = d.origin_op(op)
+        if o.get("k") == "agg" and "closure" in o["rv"] and o["rv"]["closure"] in F.fns:
+            return [FL.short(callee(t) or callee_def(t)) for b, t in F.fns[o["rv"]["closure"]].calls()]
+        return []
+    first, fallback = None, None
+    for b, t in f.calls():
+        c = FL.short(callee(t) or callee_def(t))
+        if c == "Option::and_then":
+            cc = closure_calls(t["args"][1])
+            if "Resolver::resolve_module" in cc:
+                first = (b, t)
+        if c == "Option::or_else":
+            cc = closure_calls(t["args"][1])
+            if "Semantics::resolve_type" in cc:
+                # its receiver must be the qualified lookup
+                ro = d.origin_op(t["args"][0])
+                fallback = (b, ro.get("bb") if ro.get("k") == "call" else None)
+    ok = first is not None and fallback is not None and fallback[1] == first[0]
+    res.ob("S4", "type-name/qualifier-first", "`module.Type` is looked up in the module named by the qualifier first; the current module's scope is only the fallback",
+           ok, where=f.loc(), how="qualified lookup (and_then .. resolve_module) feeds or_else(resolve_type): %s" % ok)
